@@ -4,6 +4,7 @@ package main
 
 import (
 	"fmt"
+	"math/big"
 	"go/types"
 	"strings"
 
@@ -75,6 +76,11 @@ func (e *Exec) vndCall(th *Thread, fn *ssa.Function, a []Value) Value {
 		return e.vndInt(str(0), 64, false)
 	case "I64", "Int":
 		return e.vndInt(str(0), 64, true)
+	case "SmallU64":
+		bits := e.concreteInt(a[1], "SmallU64 bits")
+		x := e.vndInt(str(0), 64, false)
+		e.assume(c.ULt(x, c.Const(BV(64), new(big.Int).Lsh(one, uint(bits)))))
+		return x
 	case "F64":
 		return e.vndVar(str(0), FPSort)
 	case "IntRange", "Choose":
